@@ -70,6 +70,7 @@ def read_config(path: Path, config=Config()) -> Config:
             storage_dir = path.parent.joinpath(storage_dir).absolute()
         config.storage_dir = storage_dir
 
-    config.format_command = tool_config.get("format-command", None)
+    # the documented default "" means that no command is configured
+    config.format_command = tool_config.get("format-command", None) or None
 
     return config
